@@ -138,6 +138,16 @@ fn main() {
             if c.data.len() > 120 {
                 continue;
             }
+            // the literal table (0x300 << (lc+lp) entries) is filled entry by entry
+            // under the interpreter: keep it small
+            let big_table = match c.entry {
+                0 | 3 => c.data.first().map_or(false, |&p| p < 225 && (p % 9) as u32 + ((p / 9) % 5) as u32 > 3),
+                4 => c.raw.0 + c.raw.1 > 3,
+                _ => false,
+            };
+            if big_table {
+                continue;
+            }
             let m = mon::c07::run_case(&c);
             let mut out = runner::CaseOut::default();
             mon::c07::judge(&c, &m, &mut out, &mut cov);
